@@ -10,12 +10,13 @@ use crate::value::*;
 use rxrust::prelude::*;
 use serde_json::json;
 
-pub const VARIANTS: [&str; 5] = [
+pub const VARIANTS: [&str; 6] = [
   "flat_map_threads(a->b) || flat_map_threads(b->a)",
   "behavior: flat_map_threads(x->y) || flat_map_threads(y->x)",
   "concat_all_threads([a,b]) || concat_all_threads([b,a]), completes",
   "concat_all_threads([s,s]), complete (one thread)",
   "merge_threads(a,b) + take_until_threads cross: a.take_until(b) || b.take_until(a)",
+  "observe_on_threads(a) feeding b || observe_on_threads(b) feeding a, two pool workers",
 ];
 
 fn inf(_: std::convert::Infallible) -> E {
@@ -82,6 +83,68 @@ pub fn cross_run(variant: usize, n: [usize; 2], seed: u64, strategy: Strategy) -
         }
         s2.complete();
       }));
+    }
+    5 => {
+      // the consumer stage of each pipeline (a map behind observe_on_threads, i.e. running inside
+      // the pool task) passes a few items on into the other subject
+      use std::sync::atomic::{AtomicUsize, Ordering};
+      use std::sync::Arc;
+      let pool = super::thr::Pool::new();
+      let sched = pool.scheduler();
+      let (a, b): (S, S) = (S::default(), S::default());
+      let (a2, b2) = (a.clone(), b.clone());
+      std::mem::forget(
+        a.clone()
+          .observe_on_threads(sched.clone())
+          .map(move |v: V| {
+            if v.int() % 100 < 2 {
+              b2.clone().next(V::I(v.int() + 1));
+            }
+            v
+          })
+          .actual_subscribe(Probe::new(1, &log)),
+      );
+      std::mem::forget(
+        b.clone()
+          .observe_on_threads(sched)
+          .map(move |v: V| {
+            if v.int() % 100 < 2 {
+              a2.clone().next(V::I(v.int() + 1));
+            }
+            v
+          })
+          .actual_subscribe(Probe::new(2, &log)),
+      );
+      let left = Arc::new(AtomicUsize::new(2));
+      for (k, mut s) in [a, b].into_iter().enumerate() {
+        let cnt = n[k];
+        let left = left.clone();
+        bodies.push(Box::new(move || {
+          for i in 0..cnt {
+            s.next(V::I((k as i64 + 1) * 1000 + 10 * i as i64));
+          }
+          left.fetch_sub(1, Ordering::SeqCst);
+        }));
+      }
+      for wi in 0..2usize {
+        let (pool, left) = (pool.clone(), left.clone());
+        bodies.push(Box::new(move || {
+          let mut pick = wi;
+          let mut spins = 0;
+          loop {
+            pick = pick.wrapping_mul(31).wrapping_add(7);
+            let ran = pool.run_one(pick);
+            if !ran && left.load(Ordering::SeqCst) == 0 && pool.idle() {
+              break;
+            }
+            spins += 1;
+            if spins > 3_000 {
+              break;
+            }
+            conc::yield_now();
+          }
+        }));
+      }
     }
     _ => {
       let (a, b): (S, S) = (S::default(), S::default());
